@@ -38,6 +38,9 @@ def targets(cases_dir, dedupe=False, stride=1, offset=0, only=None):
                     if c["Model"] in ("NSX", "PAN-OS"):
                         # JSON / XML: one representative per distinct line text
                         key = (c["Model"], f, l.strip())
+                        if f.endswith(".raw") or "/ipv6/" in f:
+                            # few and context dependent: every case counts
+                            key = (c["Id"], f, l.strip())
                     if key in seen:
                         continue
                     seen.add(key)
